@@ -159,7 +159,7 @@ func c19ConcRound(w *fw.W, p *c19ConcParams, round int, salt uint64) {
 				c.RespStatus = []int{200, 503, 404, 500}[r.IntN(4)]
 				t := &c19ConcTx{ID: fmt.Sprintf("c19c-%d-%d-%d-%d", w.Batch.Index, round, g, i), IP: fmt.Sprintf("10.%d.%d.%d", 100+g, i/200, 1+i%200), Status: c.RespStatus, caseRef: &c}
 				t.URI = "/c19c/" + t.ID
-				t.Expect = c.expect().Records
+				t.Expect = c.expect(nil).Records
 				t.Panic = fw.Guard(func() {
 					t.Fired, _, _ = c19RunTx(waf, &c, t.ID, t.URI, t.IP)
 				})
@@ -365,5 +365,5 @@ func c19JudgeIndex(w *fw.W, vcase any, indexFile string, byID map[string]*c19Con
 func c19Finish(d *fw.D) {
 	// exactly-once is decided per round inside the workers (each round owns its files); the driver only
 	// reports the size of the enumerated tables so that table_cells can be compared with it.
-	d.Count("table_cells_planned", c19Product(c19DecisionDims())+c19Product(c19ContentDims())+c19Product(c19PartsDims()))
+	d.Count("table_cells_planned", c19Product(c19DecisionDims())+c19Product(c19ContentDims())+c19Product(c19PartsDims())+c19Product(c19LateDims()))
 }
